@@ -1094,3 +1094,141 @@ func c19ListFormAgreesWithScalar(ctx *core.Ctx, r *core.Report) {
 			fmt.Sprintf("%d of %d element loops of %s convert through %s: the others re-implement the conversion, so a value the scalar form accepts (an identity written with its module prefix) is refused or read differently in a list", withScalar, loops, p[0], p[1]))
 	}
 }
+
+// c10BitsByPosition: a number given for a bits leaf is taken apart by the declared
+// position of each bit (x & (1 << Position)): testing the lowest bit and shifting
+// once per definition pairs bit N of the number with the N-th definition instead,
+// which differs as soon as positions are not 0..n-1 in order.
+func c10BitsByPosition(ctx *core.Ctx, r *core.Report) {
+	n, ok := 0, 0
+	for _, f := range scopeFuncs(ctx, "node", "value.go") {
+		if !strings.HasPrefix(f.Name(), "toBits") {
+			continue
+		}
+		core.Instrs(f, func(_ *ssa.BasicBlock, in ssa.Instruction) {
+			bo, isBo := in.(*ssa.BinOp)
+			if !isBo || bo.Op != token.AND {
+				return
+			}
+			if loopBlocks(bo.Block()) == nil {
+				return
+			}
+			// the test `x & mask != 0`
+			isTest := false
+			for _, ref := range *bo.Referrers() {
+				if cmp, isCmp := ref.(*ssa.BinOp); isCmp && (cmp.Op == token.NEQ || cmp.Op == token.EQL) {
+					isTest = true
+				}
+			}
+			if !isTest {
+				return
+			}
+			n++
+			// the mask is 1 << (…Position…)
+			for _, op := range []ssa.Value{bo.X, bo.Y} {
+				if sh, isSh := core.Strip(op).(*ssa.BinOp); isSh && sh.Op == token.SHL && strings.Contains(paramFieldChain(core.Strip(sh.Y)), "Position") {
+					ok++
+				} else if sh, isSh := core.Strip(op).(*ssa.BinOp); isSh && sh.Op == token.SHL {
+					if cv, isCv := core.Strip(sh.Y).(*ssa.Convert); isCv && strings.Contains(paramFieldChain(cv.X), "Position") {
+						ok++
+					}
+				}
+			}
+		})
+	}
+	r.Ob("bits-by-position", "node.toBits*/mask", "node/value.go", n > 0 && ok == n,
+		fmt.Sprintf("%d of %d bit tests of a numeric bits value use the mask 1<<Position of the bit definition: the others pair the N-th bit of the number with the N-th definition, so with positions {0,4,9} the number 16 converts to an empty value and 2 to the bit at position 4", ok, n))
+}
+
+// c15RequestPathsAgree: while copying a container the editor gives the request
+// it sends to the destination the same path as the request it sent to the source.
+// The JSON writer decides module qualification from that path's length and
+// parent, and a selection made for the other side of an edit has no parent chain
+// of its own: a path rebuilt from the destination makes nested members look
+// top-level and prefixes them.
+func c15RequestPathsAgree(ctx *core.Ctx, r *core.Report) {
+	f := ctx.Method("node", "editor", "node")
+	if f == nil {
+		r.Fatalf("anchor node.editor.node not found")
+		return
+	}
+	var paths []ssa.Value
+	core.Instrs(f, func(_ *ssa.BasicBlock, in ssa.Instruction) {
+		st, ok := in.(*ssa.Store)
+		if !ok {
+			return
+		}
+		fa, ok := st.Addr.(*ssa.FieldAddr)
+		if !ok {
+			return
+		}
+		sts, ok := core.Deref(fa.X.Type()).Underlying().(*types.Struct)
+		if !ok || sts.Field(fa.Field).Name() != "Path" {
+			return
+		}
+		if nn := core.NamedOf(fa.X.Type()); nn == nil || nn.Obj().Name() != "Request" {
+			return
+		}
+		paths = append(paths, st.Val)
+	})
+	ok := len(paths) >= 2
+	if ok {
+		// all but the first are that first path again (loaded back from the source request)
+		first := paths[0]
+		for _, p := range paths[1:] {
+			if p == first {
+				continue
+			}
+			if !strings.HasSuffix(paramFieldChain(p), ".Path") || strings.HasPrefix(paramFieldChain(p), "to.") {
+				ok = false
+			}
+			if _, isAlloc := core.Strip(p).(*ssa.Alloc); isAlloc {
+				ok = false
+			}
+		}
+	}
+	r.Ob("request-paths-agree", "node.editor.node/destination-request-path", ctx.Pos(f.Pos()), ok,
+		"the request the editor sends to the destination node carries a path built from the destination selection instead of the path of the source request: writers that derive names from the path (the JSON writer's module qualification looks at its length and parent) see nested members as top-level and prefix them")
+}
+
+// c16OperandReadUnfiltered: Selection.Get — how the operand of a when/where/filter
+// expression is read — asks for the leaf with a bare request (selection and leaf,
+// no path, no base). The field filters (fields=, fc.xfields) match a request's path
+// against their selector relative to its base: a path without a base is matched
+// as an absolute one, the operand is hidden and every comparison comes out false.
+func c16OperandReadUnfiltered(ctx *core.Ctx, r *core.Report) {
+	f := ctx.Method("node", "Selection", "Get")
+	if f == nil {
+		r.Fatalf("anchor node.Selection.Get not found")
+		return
+	}
+	var set []string
+	core.Instrs(f, func(_ *ssa.BasicBlock, in ssa.Instruction) {
+		st, ok := in.(*ssa.Store)
+		if !ok {
+			return
+		}
+		fa, ok := st.Addr.(*ssa.FieldAddr)
+		if !ok {
+			return
+		}
+		if nn := core.NamedOf(fa.X.Type()); nn == nil || nn.Obj().Name() != "Request" {
+			return
+		}
+		name := core.Deref(fa.X.Type()).Underlying().(*types.Struct).Field(fa.Field).Name()
+		if name == "Path" || name == "Base" {
+			set = append(set, name)
+		}
+	})
+	hasPath, hasBase := false, false
+	for _, s := range set {
+		if s == "Path" {
+			hasPath = true
+		}
+		if s == "Base" {
+			hasBase = true
+		}
+	}
+	r.Ob("operand-read-unfiltered", "node.Selection.Get/request", ctx.Pos(f.Pos()), hasPath == hasBase,
+		"Selection.Get builds its field request with a path but no base (or the reverse): a fields= filter on the same request then matches the operand's absolute path against its selector, hides the operand, and every when/where comparison is false")
+}
